@@ -80,7 +80,15 @@ class AnnotatedTypeHint(TypeHint):
         if (
             # The child type hint annotated by this parent hint does not subhint
             # the child type hint annotated by that parent hint *OR*...
-            self._metahint_wrapper > branch._metahint_wrapper or
+            #
+            # Note that this intentionally tests whether this child hint is
+            # *NOT* a subhint of that child hint rather than whether this child
+            # hint is a strict superhint of that child hint. Since subhinting is
+            # only a partial ordering, the latter erroneously fails to reject
+            # unrelated child hints that are neither subhints nor superhints of
+            # one another (e.g., "Annotated[int, 'meta'] <= Annotated[str,
+            # 'meta']").
+            not self._metahint_wrapper.is_subhint(branch._metahint_wrapper) or
             # These hints are annotated by a differing number of objects...
             len(self._metadata) != len(branch._metadata)
         ):
